@@ -22,6 +22,9 @@ import PybropsModel.Lemmas.GMapCongr
 import PybropsModel.Lemmas.GMapEdit
 import PybropsModel.Lemmas.GMapSpecDist
 import PybropsModel.Lemmas.GMapPrune
+import PybropsModel.Lemmas.GMapMeta
+import PybropsModel.Lemmas.MapFnRound
+import PybropsModel.Lemmas.GMapSlice
 set_option linter.unusedSectionVars false
 set_option autoImplicit false
 
@@ -114,6 +117,80 @@ theorem kosambi_addition_law (a b : ℝ) :
     (MapKind.kosambi.fn : ℝ → ℝ) (a + b) =
       (MapKind.kosambi.fn a + MapKind.kosambi.fn b) / (1 + 4 * MapKind.kosambi.fn a * MapKind.kosambi.fn b) :=
   kosambi_add_real a b
+
+/-! ### 1b. The same laws under an abstract rounding contract (tiny and large distances)
+
+`k.fnR rnd` is the code's expression with a rounding `rnd` after every inexact operation (`rnd = id`: the exact
+function).  What the property states survives EVERY monotone rounding that fixes 0 and 1 in its non-strict form;
+strictness and the exact inverse law do not survive (they are demanded to the proven conditioning only). -/
+
+/-- zero to zero, [0, ∞) into [0, ½], monotone — for every monotone rounding exact at 0 and 1, both kinds -/
+theorem mapfn_rounded_laws (k : MapKind) (rnd : ℝ → ℝ) (h : Rounding rnd) :
+    k.fnR rnd (0 : ℝ) = 0 ∧ Monotone (k.fnR rnd : ℝ → ℝ) ∧
+      ∀ d : ℝ, 0 ≤ d → 0 ≤ k.fnR rnd d ∧ k.fnR rnd d ≤ 1 / 2 :=
+  ⟨k.fnR_zero h, k.fnR_mono h, fun _ hd => k.fnR_range h hd⟩
+
+/-- the exact functions are the instance `rnd = id` -/
+theorem mapfn_rounded_id (k : MapKind) (d : ℝ) : k.fnR id d = k.fn d := by
+  cases k <;> rfl
+
+/-- large distances: with absorption near 1 (round to nearest: `u` = 2⁻⁵⁴ in binary64) the rounded function is
+    EXACTLY one half from some distance on — for Haldane from `ln(1/u)/2` (≈ 18.7) — and the inverse of one half
+    is +∞: the round trip cannot be resolved there (the oracle asks nothing beyond its conditioning window) -/
+theorem mapfn_rounded_saturates (k : MapKind) (rnd : ℝ → ℝ) (u : ℝ) (h : Rounding rnd) (ha : Absorbing rnd u) :
+    (∃ D : ℝ, ∀ d, D ≤ d → k.fnR rnd d = 1 / 2) ∧ (k.inv : ℝ → GDist ℝ) (1 / 2) = GDist.inf ∧
+    ∀ d : ℝ, -Real.log u / 2 ≤ d → MapKind.haldane.fnR rnd d = 1 / 2 :=
+  ⟨k.fnR_eventually_half h ha, k.inv_half, fun _ hd => haldaneR_saturates_of_le h ha hd⟩
+
+/-- the inverse functions under the same contract: zero to zero, and the order of two probabilities is never
+    inverted (Haldane: as long as `1 - 2r'` does not round to 0; Kosambi: on (-½, ½)) -/
+theorem invmapfn_rounded_laws (rnd : ℝ → ℝ) (h : Rounding rnd) :
+    invHaldaneR rnd 0 = 0 ∧ invKosambiR rnd 0 = 0 ∧
+    (∀ r r' : ℝ, r ≤ r' → 0 < rnd (1 - 2 * r') → invHaldaneR rnd r ≤ invHaldaneR rnd r') ∧
+    (∀ r r' : ℝ, -(1 / 2) < r → r ≤ r' → r' < 1 / 2 → invKosambiR rnd r ≤ invKosambiR rnd r') :=
+  ⟨invHaldaneR_zero h, invKosambiR_zero h, fun _ _ hrr hp => invHaldaneR_mono h hrr hp,
+   fun _ _ h0 hrr h1 => invKosambiR_mono h h0 hrr h1⟩
+
+/- FULL STATEMENT (false of the as-is model under rounding, see counterexample):
+     ∀ rnd, Rounding rnd → StrictMono (MapKind.haldane.fnR rnd)      -- hence: an exact inverse exists
+   `1.0 - exp(-2 d)` cancels: for `exp(-2d) ≥ 1 - u` the result is 0. -/
+
+/-- tiny distances: under any absorbing rounding a POSITIVE distance has the same image as distance 0 (Haldane's
+    `1 - exp(-2d)`), so the rounded function is not injective and no inverse undoes it exactly -/
+theorem mapfn_rounded_tiny_collapse_counterexample (rnd : ℝ → ℝ) (u : ℝ) (h : Rounding rnd) (ha : Absorbing rnd u) :
+    ∃ d : ℝ, 0 < d ∧ MapKind.haldane.fnR rnd d = MapKind.haldane.fnR rnd 0 :=
+  haldaneR_not_injective h ha
+
+/-- what does hold: absolute rounding error `δ` per operation ⇒ the rounded value is within `δ` of the exact
+    one, and then (conditioning theorem above) the EXACT inverse returns a distance within `2 δ e^{κ d}` of `d`.
+    Near zero this is an absolute accuracy of `2δ`: the reason the oracle's tolerance near 0 is absolute. -/
+theorem mapfn_rounded_roundtrip (k : MapKind) (rnd : ℝ → ℝ) (δ d : ℝ) (hδ : 0 ≤ δ) (herr : ∀ x, |rnd x - x| ≤ δ)
+    (hd : 0 ≤ d) (h2 : 4 * δ ≤ Real.exp (-((k.kappa : ℝ) * d))) :
+    ∃ d' : ℝ, (k.inv : ℝ → GDist ℝ) (k.fnR rnd d) = GDist.fin d' ∧
+      |d' - d| ≤ 2 * δ * Real.exp ((k.kappa : ℝ) * d) :=
+  mapfn_roundtrip_conditioning k d (k.fnR rnd d) δ hd (k.fnR_error hδ herr d) h2
+
+-- non-vacuity: the identity is a rounding; "everything in [7/8, 1] rounds to 1" is an absorbing one (u = 1/8)
+example : Rounding id := rounding_id
+example : Rounding (fun x : ℝ => if 7 / 8 ≤ x ∧ x ≤ 1 then 1 else x) ∧
+    Absorbing (fun x : ℝ => if 7 / 8 ≤ x ∧ x ≤ 1 then 1 else x) (1 / 8) := by
+  refine ⟨⟨?_, ?_, ?_⟩, ⟨by norm_num, by norm_num, ?_, ?_⟩⟩
+  · intro a b hab
+    simp only
+    split_ifs with h1 h2 h2
+    · exact le_rfl
+    · rcases not_and_or.mp h2 with h | h
+      · linarith [h1.1]
+      · linarith
+    · rcases not_and_or.mp h1 with h | h
+      · linarith
+      · linarith [h2.2]
+    · exact hab
+  · norm_num
+  · norm_num
+  · norm_num
+  · intro x h1 h2
+    exact if_pos ⟨by linarith, h2⟩
 
 -- non-vacuity
 example : (GDist.fin (3 / 2) : GDist ℝ).Valid ∧ (GDist.inf : GDist ℝ).Valid ∧
@@ -230,6 +307,40 @@ theorem gdist1_loop_unsorted_counterexample :
   decide
 
 end loop
+
+/-! ### the optional slice arguments (`ast/asp`, `rst/rsp/cst/csp`) of gdist1g / gdist2g / gdist1p / gdist2p -/
+section slices
+variable {α : Type} [Sub α] [LT α] [DecidableLT α] [OfNat α 0]
+
+/-- pairwise distances computed with slice arguments are rows `[rst:rsp]`, columns `[cst:csp]` of the full
+    matrix, so every pairwise law above transfers to them -/
+theorem gdist2_slices_are_parts_of_full (chr : List Int) (gen : List (Option α)) (rst rsp cst csp : Option Nat) :
+    gdist2g chr gen rst rsp cst csp = (slice rst rsp (gdist2g chr gen)).map (slice cst csp) :=
+  gdist2g_slices chr gen rst rsp cst csp
+
+/-- sequential distances computed with slice arguments are cells `[ast:asp]` of the full array, except that the
+    first cell is +∞ (the slice starts a run) -/
+theorem gdist1_slices_are_parts_of_full (chr : List Int) (gen : List (Option α)) (ast asp : Option Nat) :
+    gdist1g chr gen ast asp = reheadInf (slice ast asp (gdist1g chr gen)) :=
+  gdist1g_slices chr gen ast asp
+
+end slices
+
+section pslices
+variable {α β : Type} [Add α] [Sub α] [Mul α] [Div α] [LT α] [DecidableLT α] [OfNat α 0] [OfNat α 1]
+
+/-- the same for the variants that take physical positions (they interpolate ALL positions first) -/
+theorem gdistp_slices_are_parts_of_full (rows : List (Row α β)) (qchr : List Int) (qphy : List α)
+    (ast asp rst rsp cst csp : Option Nat) :
+    gdist1p rows qchr qphy ast asp = reheadInf (slice ast asp (gdist1p rows qchr qphy)) ∧
+    gdist2p rows qchr qphy rst rsp cst csp = (slice rst rsp (gdist2p rows qchr qphy)).map (slice cst csp) :=
+  ⟨gdist1g_slices _ _ ast asp, gdist2g_slices _ _ rst rsp cst csp⟩
+
+end pslices
+
+-- non-vacuity: a slice that starts inside a run
+example : gdist1g (α := ℚ) [1, 1, 1, 2, 2] [some 0, some (1/4), some 1, some (1/2), some 2] (some 1) (some 4)
+    = [.inf, .fin (3/4), .inf] := by decide +kernel
 
 -- non-vacuity of the contiguity hypothesis: labels in descending runs are contiguous but not sorted
 example : ContigLabels [3, 3, 1, 1, 1, 2] := by
@@ -507,6 +618,138 @@ theorem interp_after_remove_uses_old_spline_counterexample :
         [1] [20]).1 = some [some (1/2)] := by
   decide +kernel
 
+/-! ## 3c. Group metadata as an attribute of its own: derived maps (`interp_gmap`), closure of the laws -/
+section metadata
+variable {α β : Type} [Field α] [LinearOrder α] [IsStrictOrderedRing α]
+
+/-- the loop of `congruence()` over the stored `(stix, spix)` pairs, transcribed literally (numpy's IndexError /
+    broadcasting ValueError included), computes the closed form `congruence` used in all theorems above whenever
+    the stored metadata describe the stored arrays — for every list of rows, sorted or not -/
+theorem congruence_loop_eq_closed_form (rows : List (Row α β)) :
+    congruenceLit rows (groupMeta rows) (List.replicate rows.length false) = .ok (congruence rows) :=
+  congruenceLit_groupMeta rows
+
+/-- **invariant over operation histories**: every object reachable from a constructor call through `group`,
+    `ungroup`, `reorder`, `remove`, `select` (index or mask), `remove_discrepancies`, `build_spline`,
+    `interp_genpos`, re-assignment of the position arrays and `interp_gmap` (repaired form) carries metadata that
+    describe its own arrays -/
+theorem reachable_map_metadata_valid (m : MapObj α β) (h : Reach m) : m.MetaOk := h.metaOk
+
+/-- … hence on every reachable object the methods as written (`…Lit`: they walk the STORED metadata and raise
+    when it does not fit) never raise and are the closed forms the theorems are about; after `build_spline()` the
+    object answers from its own stored arrays — so every law of section 3 holds again for the edited / derived
+    map (closure of the laws under `remove` / `select` / `prune`(= `select`) / `interp_gmap`) -/
+theorem reachable_map_closed_forms (m : MapObj α β) (h : Reach m) (qchr : List Int) (qphy : List α) :
+    m.interpGenposLit qchr qphy = .ok (m.interpGenpos qchr qphy) ∧
+    m.removeDiscrepanciesLit = .ok m.removeDiscrepancies ∧
+    (m.buildSpline.interpGenposLit qchr qphy).map Prod.fst = .ok (some (interpGenpos m.rows qchr qphy)) := by
+  refine ⟨MapObj.interpGenposLit_of_metaOk h.metaOk _ _, MapObj.removeDiscrepanciesLit_of_metaOk h.metaOk, ?_⟩
+  rw [MapObj.interpGenposLit_of_metaOk (MapObj.metaOk_buildSpline h.metaOk)]
+  rfl
+
+/-- own-marker law for a reachable map with a rebuilt spline, through the methods as written -/
+theorem reachable_map_own_markers (m : MapObj α β) (h : Reach m) (hv : ValidMap m.rows) (r : Row α β)
+    (hr : r ∈ m.rows) :
+    (m.buildSpline.interpGenposLit [r.chr] [r.phy]).map Prod.fst = .ok (some [some r.gen]) := by
+  rw [(reachable_map_closed_forms m h [r.chr] [r.phy]).2.2]
+  simp [interpGenpos, interp_at_own_markers m.rows hv r hr]
+
+/-- the map `interp_gmap` returns (code AS IS) answers from the parent's spline, and stores at each of its
+    markers exactly the value that spline gives there: interpolated at its own markers it returns its stored
+    positions (whenever the call returns) -/
+theorem derived_map_own_markers (m d m' : MapObj α β) (qchr : List Int) (qphy : List α) (tags : List β)
+    (h : m.interpGmap qchr qphy tags = .ok (some (d, m'))) :
+    ∃ k, m.spline = some k ∧ d.spline = some k ∧ ∀ r ∈ d.rows, interpOne k r.chr r.phy = some r.gen :=
+  MapObj.interpGmap_rows h
+
+/- FULL STATEMENT (false of the as-is model, see counterexample):
+     ∀ m d m' q p t, Reach m → m.interpGmap q p t = .ok (some (d, m')) → d.MetaOk
+   `interp_gmap` copies the four metadata arrays of the PARENT onto the new object; they describe the parent's
+   arrays.  The derived map reports `is_grouped()`, and everything that walks `(stix, spix)` — `congruence`,
+   `is_congruent`, `remove_discrepancies`, and `interp_genpos` through its `is_congruent()` check — reads wrong
+   slices or raises. -/
+
+/-- parent: 3 + 3 markers; derived map: 2 + 3 markers.  The derived map carries `[(1,0,3,3), (2,3,6,3)]`, its
+    own arrays would give `[(1,0,2,2), (2,2,5,3)]`; `interp_genpos` on it raises ValueError (operands of shapes
+    (2,) and (1,) in `congruence()`); with the repair (metadata left `None`) it answers, and at its own markers
+    returns its stored positions -/
+theorem interp_gmap_stale_metadata_counterexample :
+    let parent : MapObj ℚ Unit := MapObj.new [⟨1, 10, 0, ()⟩, ⟨1, 20, 1/8, ()⟩, ⟨1, 30, 1/4, ()⟩, ⟨2, 10, 0, ()⟩,
+      ⟨2, 20, 3/8, ()⟩, ⟨2, 30, 1/2, ()⟩]
+    let q : List Int := [1, 1, 2, 2, 2]
+    let p : List ℚ := [12, 25, 11, 15, 28]
+    let t : List Unit := [(), (), (), (), ()]
+    (derivedOf (parent.interpGmap q p t)).map (·.gmeta) = some (some [(1, 0, 3, 3), (2, 3, 6, 3)]) ∧
+    (derivedOf (parent.interpGmap q p t)).map (fun d => groupMeta d.rows) = some [(1, 0, 2, 2), (2, 2, 5, 3)] ∧
+    (derivedOf (parent.interpGmap q p t)).map (fun d => errOf (d.interpGenposLit q p)) = some (some Err.value) ∧
+    (derivedOf (parent.interpGmapFixed q p t)).map (fun d => errOf (d.interpGenposLit q p)) = some none ∧
+    (derivedOf (parent.interpGmapFixed q p t)).map (fun d => (d.interpGenpos q p).1 == some (d.rows.map (some ·.gen)))
+      = some true := by
+  decide +kernel
+
+/-- the as-is `interp_gmap` is harmless exactly when the copied metadata happen to fit: same label array as the
+    parent (e.g. the parent's own markers, in stored order) -/
+theorem derived_map_metadata_valid_partial (m d m' : MapObj α β) (qchr : List Int) (qphy : List α) (tags : List β)
+    (hm : Reach m) (h : m.interpGmap qchr qphy tags = .ok (some (d, m')))
+    (hl : d.rows.map (·.chr) = m'.rows.map (·.chr)) : d.MetaOk := by
+  -- the parent after the call is `m` after `interp_genpos` (grouped as a side effect): reachable
+  unfold MapObj.interpGmap at h
+  rw [MapObj.interpGenposLit_of_metaOk hm.metaOk] at h
+  cases hi : (m.interpGenpos qchr qphy).1 with
+  | none =>
+    have : m.interpGenpos qchr qphy = (none, (m.interpGenpos qchr qphy).2) := by rw [← hi]
+    rw [this] at h; simp at h
+  | some gen =>
+    have hpair : m.interpGenpos qchr qphy = (some gen, (m.interpGenpos qchr qphy).2) := by rw [← hi]
+    rw [hpair] at h
+    simp only at h
+    cases hd : derivedRows qchr qphy tags gen with
+    | none => rw [hd] at h; simp at h
+    | some rows =>
+      rw [hd] at h
+      simp only [Except.ok.injEq, Option.some.injEq, Prod.mk.injEq] at h
+      obtain ⟨hdm, hm1⟩ := h
+      have hok' : m'.MetaOk := by rw [← hm1]; exact MapObj.metaOk_interpGenpos hm.metaOk qchr qphy
+      intro mt hmt
+      rw [← hdm] at hmt
+      simp only at hmt
+      rw [hm1] at hmt
+      rw [hok' mt hmt]
+      exact (groupMeta_congr hl).symm
+
+/-- and any later call that re-groups — `group()`, `remove`, `select` — restores valid metadata, whatever the
+    object looked like before -/
+theorem derived_map_healed_by_regrouping (d : MapObj α β) (idx : List Nat) (mask : List Bool) :
+    d.group.MetaOk ∧ (d.remove idx).MetaOk ∧ (d.select idx).MetaOk ∧ (d.selectMask mask).MetaOk :=
+  ⟨MapObj.metaOk_group d, MapObj.metaOk_remove d idx, MapObj.metaOk_select d idx, MapObj.metaOk_selectMask d mask⟩
+
+/-- the sequential-distance loop of `gdist1g` on the STORED arrays of any constructed map: the constructor's sort
+    makes equal labels contiguous, so the precondition of `gdist1_loop_eq_closed_form_partial` is met — no
+    hypothesis on the supplied rows is left -/
+theorem gdist1_loop_eq_closed_form_stored (rows : List (Row α β)) (gen : List (Option α))
+    (hlen : rows.length ≤ gen.length) :
+    gdist1gLit ((construct rows).map (·.chr)) gen = (gdist1g ((construct rows).map (·.chr)) gen).map some := by
+  apply gdist1_loop_eq_closed_form_sorted_partial
+  · rw [List.length_map, (construct_perm rows).length_eq]; exact hlen
+  · rw [List.pairwise_map]
+    exact (construct_sorted rows).imp (fun h => rowLe_chr_le h)
+
+end metadata
+
+-- non-vacuity: a reachable derived map (repaired `interp_gmap`) over ℚ that is a valid map
+example : ∃ d : MapObj ℚ Unit, Reach d ∧ ValidMap d.rows ∧ d.rows.length = 5 := by
+  have hd : (derivedOf ((MapObj.new ([⟨1, 10, 0, ()⟩, ⟨1, 20, 1/8, ()⟩, ⟨1, 30, 1/4, ()⟩, ⟨2, 10, 0, ()⟩,
+      ⟨2, 20, 3/8, ()⟩, ⟨2, 30, 1/2, ()⟩] : List (Row ℚ Unit))).interpGmapFixed [1, 1, 2, 2, 2] [12, 25, 11, 15, 28]
+        [(), (), (), (), ()])).map (·.rows) =
+      some [⟨1, 12, 1/40, ()⟩, ⟨1, 25, 3/16, ()⟩, ⟨2, 11, 3/80, ()⟩, ⟨2, 15, 3/16, ()⟩, ⟨2, 28, 19/40, ()⟩] := by
+    decide +kernel
+  obtain ⟨d, h1, h2⟩ := Option.map_eq_some_iff.mp hd
+  obtain ⟨m', h3⟩ := derivedOf_eq_some h1
+  refine ⟨d, Reach.derived _ _ _ (Reach.new _ true true) h3, ?_, by rw [h2]; rfl⟩
+  rw [h2]
+  unfold ValidMap NoDupPhys nMarkers
+  decide +kernel
+
 /-! ## 4. Crossover probabilities of a genotype matrix -/
 section xoprob
 variable {α β : Type} [Field α] [LinearOrder α] [IsStrictOrderedRing α]
@@ -598,6 +841,47 @@ example : ValidMap ([⟨1, 0, 0, ()⟩, ⟨1, 1, 1, ()⟩] : List (Row ℝ Unit)
     simp only [List.mem_cons, List.not_mem_nil, or_false] at ha hb
     rcases ha with rfl | rfl <;> rcases hb with rfl | rfl <;> first | (show (_ : ℝ) ≤ _; norm_num; done) | (exfalso; norm_num at hlt)
 
+/-! ## 4b. Both genetic-map classes
+
+Every definition and theorem above is generic in the type `β` of the columns that ride along with a marker.
+`StandardGeneticMap` is `β = Unit`; `ExtendedGeneticMap` is `β = ExtCols` (`vrnt_stop`, `vrnt_name`,
+`vrnt_fncode`, the last two possibly `None`): its `reorder` / `remove` / `select` apply the same index array to
+every column, which is what moving whole `Row`s models.  The bundle below is stated once and instantiated for
+both classes. -/
+section classes
+variable {α β : Type} [Field α] [LinearOrder α] [IsStrictOrderedRing α]
+
+/-- the interpolation clause, the constructor clause and the editing closure for a map class with riding
+    columns `β` (the statement is `MapClassLaws` in Lemmas/GMapMeta) -/
+theorem map_class_laws (rows : List (Row α β)) (hv : ValidMap rows) : MapClassLaws rows :=
+  ⟨fun r hr => interp_at_own_markers rows hv r hr,
+   fun a ha b hb hab x h0 h1 hf => interp_linear_between rows hv a b ha hb hab x h0 h1 hf,
+   fun c x => interp_missing_iff_absent rows hv c x,
+   fun hc r hr x x' hx => interp_order_preserving rows hv hc r hr x x' hx,
+   fun rows' hp => ⟨fun qchr qphy => interp_order_independent rows rows' hp hv qchr qphy,
+     (construct_order_independent_valid rows rows' hp hv).1⟩,
+   ⟨construct_perm rows, fun gen hl => gdist1_loop_eq_closed_form_stored rows gen hl⟩,
+   fun m hm => ⟨hm.metaOk, fun qchr qphy => (reachable_map_closed_forms m hm qchr qphy).1⟩⟩
+
+/-- `StandardGeneticMap` -/
+theorem standard_map_laws (rows : List (StdRow α)) (hv : ValidMap rows) : MapClassLaws rows :=
+  map_class_laws rows hv
+
+/-- `ExtendedGeneticMap` (stop / name / fncode ride along) -/
+theorem extended_map_laws (rows : List (ExtRow α)) (hv : ValidMap rows) : MapClassLaws rows :=
+  map_class_laws rows hv
+
+end classes
+
+-- non-vacuity for the extended class: a shuffled map with names on some rows only; the constructor moves the
+-- columns with their markers
+example : ValidMap ([⟨1, 30, 1/2, ⟨37, some "m0", none⟩⟩, ⟨1, 10, 1/8, ⟨17, none, some "H"⟩⟩] : List (ExtRow ℚ)) ∧
+    construct ([⟨1, 30, 1/2, ⟨37, some "m0", none⟩⟩, ⟨1, 10, 1/8, ⟨17, none, some "H"⟩⟩] : List (ExtRow ℚ)) =
+      [⟨1, 10, 1/8, ⟨17, none, some "H"⟩⟩, ⟨1, 30, 1/2, ⟨37, some "m0", none⟩⟩] := by
+  constructor
+  · unfold ValidMap NoDupPhys nMarkers; decide +kernel
+  · decide +kernel
+
 /-! ## 5. The Spec oracles of the check (Model/GMapSpec.lean) versus the theorems
 
 The driver evaluates `Spec.specInterp` / `Spec.specGdist` on the IMPLEMENTATION's outputs.  The theorems
@@ -631,6 +915,15 @@ theorem spec_interp_exact_agrees_with_model (rows : List (Row ℚ Int)) (hv : Va
         ∀ m ∈ rows, m.chr = p.1 → ¬ (a.phy < m.phy ∧ m.phy < b.phy)) → p.2.2 = interpOne rows p.1 p.2.1) ∧
     ((∀ r ∈ rows, r.chr ≠ p.1) → p.2.2 = interpOne rows p.1 p.2.1) :=
   specInterp_exact_agrees_with_model rows hv p hlaw
+
+/-- the oracle used for the other spline kinds (`previous`, `next`, `zero`, `nearest`, quadratic, cubic: own
+    markers, missing chromosomes, row-order independence) asks a subset of `specInterp`: it accepts whatever
+    `specInterp` accepts, in particular the linear model's answers on every valid map -/
+theorem spec_interp_any_kind_weaker (rows : List (Row ℚ Int)) (qchr : List Int) (qphy : List ℚ)
+    (out out2 : List (Option ℚ)) (oneSided : Bool) (t : Tol)
+    (h : (specInterp rows qchr qphy out out2 t).1 = true) :
+    (specInterpAnyKind rows qchr qphy out out2 oneSided t).1 = true :=
+  specInterpAnyKind_of_specInterp rows qchr qphy out out2 oneSided t h
 
 /-- the distance oracle accepts the model's `gdist1g` / `gdist2g` on every input -/
 theorem spec_gdist_accepts_model (t : Tol) (ht : 0 ≤ t.abs_) (chr : List Int) (gen : List (Option ℚ))
